@@ -150,7 +150,7 @@ func TestVerif_C14_close_e2e(t *testing.T) {
 				class := ""
 				switch {
 				case v.alg == "deflate" && readN > 0:
-					class = "deflate-close-leaves-body-open" // fixes/C14-5
+					class = "deflate-close-leaves-body-open" // repaired in /repo by 1ae1001
 				case v.alg == "zstd" && readN > 0:
 					class = "zstd-close-waits-for-body" // fixes/C14-6
 				}
